@@ -73,33 +73,62 @@ Fixpoint fields_lines (pkg parent : bytes) (in_oneof : bool) (i : N) (l : list o
 (* the messages nested in a message because of its fields, in field order: the entry message of a map
    field (key = 1 string, value = 2) and the message of an inline object / oneof; then (a separate list
    in the descriptor) the inline enums *)
+(* the entry message of a map field *)
+Definition map_entry_lines (pkg parent : bytes) (file : N) (f : ofield) : list line :=
+  match f_type f with
+  | TMap v =>
+      let '(pt, tn, kind) := type_cols pkg parent f v in
+      [ (1, [parent ++ [46] ++ map_name (to_snake (f_json f)); []], [file; 0; 0]);
+        (2, [bs "key"; []; []; []; []; []; []; []], [1; 9; 0; 0; 0; 0; 0; 0; 0; 0; 0]);
+        (2, [bs "value"; []; tn; kind; []; []; []; keyfmt_name (f_keyfmt f)], [2; pt; 0; 0; 0; 0; 0; 0; 0; 0; 0]) ]
+  | _ => []
+  end.
+(* the nested enum an inline enum field defines *)
+Definition inline_enum_lines (parent : bytes) (f : ofield) : list line :=
+  match inline_of f with
+  | Some (n, k, il) =>
+      if k =? 2 then (4, [parent ++ [46] ++ n], [])
+                     :: map (fun v => (5, [fst v], [snd v])) (status_values (to_screaming_snake n ++ [95]) (il_options il))
+      else []
+  | None => []
+  end.
+
+(* a field of a tree-form inline schema, seen from the message [parent] that holds it: the nested message
+   it defines (with everything nested in that, pre-order: fields, nested messages, nested enums), then its
+   map entry message *)
+Fixpoint tfield_msg_lines (pkg parent : bytes) (file : N) (t : tfield) : list line :=
+  match t with
+  | TF n (TKInline k c fs os) r o d =>
+      (if k =? 2 then []
+       else let full := parent ++ [46] ++ to_camel n in
+            (1, [full; []], [file; 0; b2n (k =? 1)])
+            :: fields_lines pkg full (k =? 1) 1 (map of_tfield fs)
+            ++ flat_map (tfield_msg_lines pkg full file) fs
+            ++ flat_map (fun x => inline_enum_lines full (of_tfield x)) fs)
+      ++ map_entry_lines pkg parent file (of_tfield t)
+  | _ => map_entry_lines pkg parent file (of_tfield t)
+  end.
+
+(* the messages nested in a message because of its fields, in field order: the message of an inline
+   object / oneof (also as the item of an array / the value of a map) and then the entry message of a map
+   field (key = 1 string, value = 2); then (a separate list in the descriptor) the inline enums *)
 Definition entry_lines (pkg parent : bytes) (file : N) (fs : list ofield) : list line :=
   flat_map (fun f =>
-    (* the message of an inline object / oneof (also as the item of an array / the value of a map) ... *)
     match inline_of f with
     | Some (n, k, il) =>
         if k =? 2 then []
-        else (1, [parent ++ [46] ++ n; []], [file; 0; b2n (k =? 1)])
-             :: fields_lines pkg (parent ++ [46] ++ n) (k =? 1) 1 (map of_sfield (il_fields il))
+        else match il_tree il with
+             | [] => (1, [parent ++ [46] ++ n; []], [file; 0; b2n (k =? 1)])
+                     :: fields_lines pkg (parent ++ [46] ++ n) (k =? 1) 1 (map of_sfield (il_fields il))
+             | tfs => (1, [parent ++ [46] ++ n; []], [file; 0; b2n (k =? 1)])
+                      :: fields_lines pkg (parent ++ [46] ++ n) (k =? 1) 1 (map of_tfield tfs)
+                      ++ flat_map (tfield_msg_lines pkg (parent ++ [46] ++ n) file) tfs
+                      ++ flat_map (fun x => inline_enum_lines (parent ++ [46] ++ n) (of_tfield x)) tfs
+             end
     | None => []
     end
-    (* ... then the entry message of a map field *)
-    ++ match f_type f with
-       | TMap v =>
-           let '(pt, tn, kind) := type_cols pkg parent f v in
-           [ (1, [parent ++ [46] ++ map_name (to_snake (f_json f)); []], [file; 0; 0]);
-             (2, [bs "key"; []; []; []; []; []; []; []], [1; 9; 0; 0; 0; 0; 0; 0; 0; 0; 0]);
-             (2, [bs "value"; []; tn; kind; []; []; []; keyfmt_name (f_keyfmt f)], [2; pt; 0; 0; 0; 0; 0; 0; 0; 0; 0]) ]
-       | _ => []
-       end) fs
-  ++ flat_map (fun f =>
-    match inline_of f with
-    | Some (n, k, il) =>
-        if k =? 2 then (4, [parent ++ [46] ++ n], [])
-                       :: map (fun v => (5, [fst v], [snd v])) (status_values (to_screaming_snake n ++ [95]) (il_options il))
-        else []
-    | None => []
-    end) fs.
+    ++ map_entry_lines pkg parent file f) fs
+  ++ flat_map (inline_enum_lines parent) fs.
 
 (* 1: message — [full name; psm entity] [file; psm part; is oneof] *)
 Definition msg_lines (pkg : bytes) (file : N) (m : omsg) : list line :=
